@@ -12,7 +12,7 @@ import (
 func init() {
 	Register(&PropDef{
 		ID: "C07", QuickRuns: 2400, Level: "exploration", Race: true,
-		Rule: "one run = 1-3 associations establishing 3-14 sessions with CHOOSE F-TEIDs on the BESS datapath, some rounds with all peers sending at the same instant, sessions deleted in between; the per-association random source is honest, or adversarial (cycle of 1-3 values, constant, zero first - injected through the rand.NewSource seam), and the TEID cursor is placed 0-3 below the 32-bit wrap-around through the bridge. Oracle: live sessions of one association have pairwise different non-zero UP F-SEIDs (otherwise the establishment must have been refused); UP-chosen TEIDs are non-zero and pairwise distinct among live sessions of all associations; the F-SEID and F-TEIDs in the response are the values in the PDR entries of the simulated BESS (image check). Non-trivial = at least two accepted sessions and an adversarial source or wrap-around or concurrent round; distinct = different (source mode, cursor, outcome sequence).",
+		Rule: "one run = 1-3 associations establishing 3-14 sessions with CHOOSE F-TEIDs on the BESS datapath, some rounds with all peers sending at the same instant, sessions deleted in between; the per-association random source is honest, or adversarial (cycle of 1-3 values, constant, zero first - injected through the rand.NewSource seam), and the TEID cursor is placed 0-3 below the 32-bit wrap-around through the bridge. Oracle: live sessions of one association have pairwise different non-zero UP F-SEIDs (otherwise the establishment must have been refused); UP-chosen TEIDs are non-zero and pairwise distinct among live sessions of all associations; the F-SEID and F-TEIDs in the response are the values in the PDR entries of the simulated BESS (image check). Non-trivial = at least two accepted sessions and an adversarial source or wrap-around or concurrent round; distinct = different (source mode, cursor, outcome sequence). Also: one peer releases its association while others hold sessions; one run in five on the P4Runtime datapath with deletions refused after a failed Write.",
 		Assume: []string{"the adversarial random source replaces only the source handed to rand.New for the association's SEID generator"},
 		Real: CommonReal, Simulated: CommonSim,
 		Scenario: scenarioC07,
